@@ -327,23 +327,23 @@ pub fn generate_c14<W: Write>(c: &mut Cases<W>, rng: &mut Rng, thorough: bool) {
 /// another, 0xFF) with EVERY assignment of an empty / non-empty value, under every configuration of a
 /// small grid (quick: one configuration).  243 files per configuration.
 pub fn generate_exhaustive<W: Write>(c: &mut Cases<W>, thorough: bool) {
-    let universe: [Vec<u8>; 5] = [vec![], vec![0], vec![0, 0], vec![0, 255], vec![255]];
-    let mut cfgs = Vec::new();
-    let base = FileCfg { codec: CompressionType::None, level: 0, block_size: 16, unclamped: true, interval: Some(1), levels: 1 };
+    let mut universe: Vec<Vec<u8>> = vec![vec![], vec![0], vec![0, 0], vec![0, 255], vec![255]];
     if thorough {
-        for levels in [0u8, 1, 2] {
-            for (block_size, unclamped) in [(16usize, true), (8192usize, false)] {
-                for interval in [1usize, 2] {
-                    cfgs.push(FileCfg { levels, block_size, unclamped, interval: Some(interval), ..base.clone() });
-                }
+        universe = vec![vec![], vec![0], vec![0, 0], vec![0, 0, 0], vec![0, 255], vec![255], vec![255, 255]];
+    }
+    let n = universe.len();
+    let base = FileCfg { codec: CompressionType::None, level: 0, block_size: 16, unclamped: true, interval: Some(1), levels: 1 };
+    let mut cfgs = Vec::new();
+    for levels in [0u8, 1, 2] {
+        for (block_size, unclamped) in [(16usize, true), (8192usize, false)] {
+            for interval in [1usize, 2] {
+                cfgs.push(FileCfg { levels, block_size, unclamped, interval: Some(interval), ..base.clone() });
             }
         }
-    } else {
-        cfgs.push(base.clone());
     }
     for cfg in &cfgs {
-        for mask in 0u32..32 {
-            let keys: Vec<&Vec<u8>> = (0..5).filter(|i| mask & (1 << i) != 0).map(|i| &universe[i]).collect();
+        for mask in 0u32..(1 << n) {
+            let keys: Vec<&Vec<u8>> = (0..n).filter(|i| mask & (1 << i) != 0).map(|i| &universe[i]).collect();
             for vmask in 0u32..(1 << keys.len()) {
                 let es: Vec<(Vec<u8>, Vec<u8>)> = keys.iter().enumerate()
                     .map(|(j, k)| ((*k).clone(), if vmask & (1 << j) != 0 { vec![7u8] } else { vec![] })).collect();
